@@ -6,8 +6,9 @@
                                K<hexkey>/<hexkey>… (Setkeys; K alone: no keys)
     v1hunk  ( node* | node* | node* )        path elements | old values | new values
     v1diff  < v1hunk* >
-  Path elements are nodes. Inside a metadata array of a path the token NIL (a nil interface value
-  left behind by prependMetadataMerge) is read as `.void`, and `.void` is written as NIL.
+  Path elements are nodes, or SORI"<hex> for a jsonStringOrInteger token (JSON Pointer reader).
+  Inside a metadata array of a path the token NIL (a nil interface value left behind by
+  prependMetadataMerge) is read as `.void`, and `.void` is written as NIL.
 
     v1hash <meta> <node>            -> h<16hex>
     v1ident <meta> <node>           -> h<16hex>
@@ -16,6 +17,18 @@
     v1patch <node> <v1diff>         -> ok <node> | err | panic
     v1diffpatch <meta> <a> <b>      -> <v1diff> <outcome>
     c17 <meta> <a> <b> <implEquals(r,b)> <impl patch outcome> <diffEmpty> <implEquals(a,b)>
+
+  text layer (d= is the number dictionary of the v2 text ops):
+    v1render d= <v1diff>            -> ok x<text> | unsupported | panic      (v1renderc: with COLOR)
+    v1readdiff d= x<text>           -> ok <v1diff> | err
+    v1renderpatch d= <v1diff>       -> ok x<text> | unsupported | err
+    v1readpatch d= x<text>          -> ok <v1diff> | err
+    v1rendermerge d= <v1diff>       -> ok x<text> | unsupported | err | panic
+    v1readmerge d= x<text>          -> ok <v1diff with the hunks sorted by their encoding> | err
+    v1json d= <node>                -> ok x<text> | unsupported
+    c17t <meta> <a> <b> <impl outcome of patching a with the re-read diff> <implEquals(r,b)>
+    c18p d= <a> <b> <impl RenderPatch outcome> <impl outcome of patching a with the re-read patch>
+    c18m d= <meta> <a> <b> <impl RenderMerge outcome> <impl outcome of patching a with the re-read patch>
 -/
 import Driver.Wire
 import Driver.Oracles
@@ -50,17 +63,22 @@ def pV1Metas : P V1.Metas := do
       else failure)
 
 /-- a path element; `.void` inside a metadata array stands for a nil interface value -/
-def v1EncPathElem : Json → String
-  | .arr .raw items =>
+def v1EncPathElem : V1.PElem → String
+  | .node (.arr .raw items) =>
     "[r" ++ String.join (items.map (fun x => " " ++ (if x.isVoid then "NIL" else encNode x))) ++ " ]"
-  | n => encNode n
+  | .node n => encNode n
+  | .sori s => "SORI\"" ++ hexOfString s
 
-def v1EncHunk (h : V1.Hunk) : String :=
+def v1EncPHunk (h : V1.PHunk) : String :=
   "(" ++ String.join (h.path.map (fun e => " " ++ v1EncPathElem e)) ++
   " |" ++ encNodes h.old ++ " |" ++ encNodes h.new ++ " )"
 
-def v1EncDiff (d : V1.VDiff) : String :=
-  "<" ++ String.join (d.map (fun h => " " ++ v1EncHunk h)) ++ " >"
+def v1EncPDiff (d : V1.PDiff) : String :=
+  "<" ++ String.join (d.map (fun h => " " ++ v1EncPHunk h)) ++ " >"
+
+def v1EncHunk (h : V1.Hunk) : String := v1EncPHunk h.toP
+
+def v1EncDiff (d : V1.VDiff) : String := v1EncPDiff (V1.liftDiff d)
 
 partial def pV1MetaItemsUntil (stop : String) : P (List Json) := do
   let t ← peek
@@ -76,7 +94,7 @@ partial def pV1MetaItemsUntil (stop : String) : P (List Json) := do
     let r ← pV1MetaItemsUntil stop
     pure (x :: r)
 
-partial def pV1PathUntil (stop : String) : P (List Json) := do
+partial def pV1PathUntil (stop : String) : P V1.PPath := do
   let t ← peek
   if t == stop then
     let _ ← next
@@ -85,20 +103,27 @@ partial def pV1PathUntil (stop : String) : P (List Json) := do
     let _ ← next
     let items ← pV1MetaItemsUntil "]"
     let r ← pV1PathUntil stop
-    pure (.arr .raw items :: r)
+    pure (.node (.arr .raw items) :: r)
+  else if t.startsWith "SORI\"" then
+    let _ ← next
+    match stringOfHex (sdrop t 5) with
+    | some s =>
+      let r ← pV1PathUntil stop
+      pure (.sori s :: r)
+    | none => failure
   else
     let x ← pNode
     let r ← pV1PathUntil stop
-    pure (x :: r)
+    pure (.node x :: r)
 
-def pV1Hunk : P V1.Hunk := do
+def pV1Hunk : P V1.PHunk := do
   expect "("
   let path ← pV1PathUntil "|"
   let old ← pNodesUntil "|"
   let new ← pNodesUntil ")"
   pure { path, old, new }
 
-partial def pV1HunksUntilGt : P V1.VDiff := do
+partial def pV1HunksUntilGt : P V1.PDiff := do
   if (← peek) == ">" then
     let _ ← next
     pure []
@@ -107,7 +132,8 @@ partial def pV1HunksUntilGt : P V1.VDiff := do
     let r ← pV1HunksUntilGt
     pure (h :: r)
 
-def pV1Diff : P V1.VDiff := do
+/-- a v1 diff; its paths may hold jsonStringOrInteger tokens -/
+def pV1Diff : P V1.PDiff := do
   expect "<"
   pV1HunksUntilGt
 
@@ -159,15 +185,17 @@ def v1KeyedDistinct (m : V1.Metas) (nodes : List Json) : Bool :=
 /-- C17 (in-memory half) on the implementation's outputs: `a.Patch(a.Diff(b, meta))` succeeded, its
     result Equals b (implementation's verdict, model `equals`, hash-free spec `equivB`), and the diff
     is empty exactly when the implementation says `a.Equals(b, meta)`. -/
+def c17Class (m : V1.Metas) (a b : Json) (why : String) : String :=
+  if v1SetMode m && !(v1AliasFree m (subterms a ++ subterms b)) then "kf KF-C04-alias " ++ why
+  else if V1.hasSet m && (V1.keysOf m).isSome && !(v1KeyedDistinct m (subterms a ++ subterms b)) then
+    "ok skipped-setkeys-precondition (two members of one array share an identity): " ++ why
+  else if (hasNegZero a || hasNegZero b) then "kf KF-C05-negzero " ++ why
+  else if v1HasPrecisionPair m a b then "kf KF-C05-precision " ++ why
+  else "fail " ++ why
+
 def oracleC17 (m : V1.Metas) (a b : Json) (implEq : Bool) (out : Outcome Json)
     (diffEmpty implEqAB : Bool) : String :=
-  let bad (why : String) : String :=
-    if v1SetMode m && !(v1AliasFree m (subterms a ++ subterms b)) then "kf KF-C04-alias " ++ why
-    else if V1.hasSet m && (V1.keysOf m).isSome && !(v1KeyedDistinct m (subterms a ++ subterms b)) then
-      "ok skipped-setkeys-precondition (two members of one array share an identity): " ++ why
-    else if (hasNegZero a || hasNegZero b) then "kf KF-C05-negzero " ++ why
-    else if v1HasPrecisionPair m a b then "kf KF-C05-precision " ++ why
-    else "fail " ++ why
+  let bad (why : String) : String := c17Class m a b why
   match out with
   | .ok r =>
     if !implEq then bad "implementation: patched document does not Equal b"
@@ -178,7 +206,138 @@ def oracleC17 (m : V1.Metas) (a b : Json) (implEq : Bool) (out : Outcome Json)
   | .err => bad "Patch returned an error on the library's own diff"
   | .panic => "fail Patch panicked"
 
+/-! ### C17 text half: patching with the diff after Render and ReadDiffString -/
+
+/-- the prefixes of a path that end in a member-object path element (the keyed path elements of
+    set.go's "recurse into a specific object") and continue into a field that is not a set key,
+    as wire text -/
+def v1KeyedPrefixes (keys : List String) (p : List Json) : List String :=
+  (List.range p.length).filterMap (fun i =>
+    match p[i]?, p[i + 1]? with
+    | some (Json.obj _), some (Json.str k) =>
+      if keys.contains k then none
+      else some (String.join ((p.take (i + 1)).map (fun e => " " ++ v1EncPathElem (.node e))))
+    | _, _ => none)
+
+/-- class of KF-C17-keyedpath: SET + Setkeys, and two or more hunks of the diff lie under the same keyed
+    path element, in fields that are not set keys (some keyed member changes in two or more
+    places). A v1 keyed path element is the WHOLE member object of a; a diff that does not share
+    memory with the document (read from text, or any copy) stops matching the member after the
+    first of those hunks changed it. -/
+def v1KeyedPathClass (m : V1.Metas) (d : V1.VDiff) : Bool :=
+  V1.hasSet m &&
+    (match V1.keysOf m with
+     | none => false
+     | some ks =>
+       let pre := d.map (fun h => (v1KeyedPrefixes ks h.path).eraseDups)
+       let all := pre.flatten
+       all.any (fun x => (all.filter (· == x)).length ≥ 2))
+
+/-- C17 (text half) on the implementation's outputs: `out` = a.Patch(ReadDiffString(Render(a.Diff(b, meta))))
+    on fresh values, `implEq` = its result Equals b -/
+def oracleC17T (m : V1.Metas) (a b : Json) (out : Outcome Json) (implEq : Bool) : String :=
+  -- the classes that also break the in-memory half first (hash aliases, -0, precision, Setkeys precondition)
+  let bad (why : String) : String :=
+    let c := c17Class m a b why
+    if c.startsWith "fail " && v1KeyedPathClass m (V1.diffM m a b) then "kf KF-C17-keyedpath " ++ why
+    else c
+  match out with
+  | .ok r =>
+    if !implEq then bad "implementation: after Render and ReadDiffString the patched document does not Equal b"
+    else if !(V1.equals m r b) then bad "model equals: after Render and ReadDiffString the patched document differs from b"
+    else if !(equivB (v1ToOpts m) r b) then bad "spec Equiv: after Render and ReadDiffString the patched document is not equivalent to b"
+    else "ok"
+  | .err => bad "after Render and ReadDiffString, Patch returns an error on the library's own diff"
+  | .panic => "fail panic"
+
+/-! ### C18 oracles -/
+
+/-- can the paths of a list-mode v1 diff be written as JSON Pointers: v1 refuses only the key "-" -/
+def v1Expressible (d : V1.VDiff) : Bool :=
+  d.all (fun h => h.path.all (fun e => match e with
+    | .str k => k != "-"
+    | .num _ => true
+    | _ => false))
+
+/-- C18 (JSON Patch): the rendered patch evaluated by the RFC 6902 evaluator on a gives b; reading it
+    back with ReadPatchString and patching a gives b -/
+def oracleC18P (nc : NumCodec) (a b : Json) (implText : Outcome String) (readBack : Outcome Json) : String :=
+  match implText with
+  | .panic => "fail RenderPatch panicked"
+  | .err =>
+    if v1Expressible (V1.diffM [] a b) then "fail RenderPatch refused a diff whose paths are expressible as JSON Pointers"
+    else "ok refused-inexpressible (object key \"-\")"
+  | .ok text =>
+    match parseJson nc text with
+    | none => "fail the rendered JSON Patch is not valid JSON"
+    | some doc =>
+      match opsOfJson doc with
+      | none => "fail the rendered JSON Patch is not a well-formed RFC 6902 document"
+      | some ops =>
+        if !(ops.all (fun o => o.op == "test" || o.op == "remove" || o.op == "add")) then
+          "fail unexpected operation in the rendered patch"
+        else
+          match eval a ops with
+          | none => "fail RFC 6902 evaluation of the rendered patch on a fails"
+          | some r =>
+            if !(specEq r b) then "fail RFC 6902 evaluation of the rendered patch on a gives " ++ encNode r ++ ", not b"
+            else
+              match readBack with
+              | .ok r2 =>
+                if specEq r2 b && V1.equals [] r2 b then "ok"
+                else "fail reading the rendered JSON Patch back and patching a gives " ++ encNode r2 ++ ", not b"
+              | .err => "fail jd cannot read back and apply its own JSON Patch"
+              | .panic => "fail panic while reading back or patching"
+
+/-- C18 (JSON Merge Patch): RFC 7386 MergePatch(a, rendered patch) ≈ b; reading the text back with
+    ReadMergeString and patching a gives a document ≈ b. Known-finding classes: the class predicate of
+    C12 (root `null`; `{}` at the root over a non-object, or where the target holds an object), and
+    hash aliases in the set modes. -/
+def oracleC18M (nc : NumCodec) (m : V1.Metas) (a b : Json) (implText : Outcome String)
+    (readBack : Outcome Json) : String :=
+  let o := v1ToOpts m
+  let alias := v1SetMode m && !(v1AliasFree m (subterms a ++ subterms b))
+  match implText with
+  | .panic => "fail RenderMerge panicked"
+  | .err => if alias then "kf KF-C04-alias RenderMerge returned an error" else "fail RenderMerge returned an error"
+  | .ok text =>
+    match parseJson nc text with
+    | none => "fail the rendered merge patch is not valid JSON"
+    | some p =>
+      let r := mergePatch a p
+      if !(equivB o r b) then
+        (if alias then "kf KF-C04-alias MergePatch(a, patch) is not b"
+         else "fail MergePatch(a, patch) = " ++ encNode r ++ " is not b")
+      else
+        let cls (why : String) : String :=
+          match p with
+          | .null => "kf KF-C12-rootnull " ++ why
+          | .obj [] => if !a.isObj then "kf KF-C12-emptyobj " ++ why else if alias then "kf KF-C04-alias " ++ why else "fail " ++ why
+          | _ =>
+            if emptyObjOverObj a p then "kf KF-C12-emptyobj " ++ why
+            else if alias then "kf KF-C04-alias " ++ why
+            else "fail " ++ why
+        match readBack with
+        | .ok r2 =>
+          if equivB o r2 b then "ok"
+          else cls ("reading the rendered merge patch back and patching a gives " ++ encNode r2 ++ ", not b")
+        | .err => cls "jd cannot read back and apply its own merge patch"
+        | .panic => "fail panic while reading back or patching"
+
 /-! ### op table -/
+
+def v1EncRender : Outcome (Option String) → String
+  | .ok t => encOptText t
+  | .err => "err"
+  | .panic => "panic"
+
+/-- insertion sort of strings -/
+def v1SortStrings (l : List String) : List String :=
+  l.foldr (fun h acc =>
+    let rec ins (h : String) : List String → List String
+      | [] => [h]
+      | x :: r => if h < x then h :: x :: r else x :: ins h r
+    ins h acc) []
 
 def runV1 (op : String) : Option (P String) :=
   match op with
@@ -196,7 +355,7 @@ def runV1 (op : String) : Option (P String) :=
     pure (v1EncDiff (V1.diffM m a b))
   | "v1patch" => some do
     let n ← pNode; let d ← pV1Diff
-    pure (encOutcome encNode (V1.patchM n d))
+    pure (encOutcome encNode (V1.patchP n d))
   | "v1diffpatch" => some do
     let m ← pV1Metas; let a ← pNode; let b ← pNode
     -- Diff then Patch on the same in-memory values (path objects alias members of a)
@@ -204,7 +363,49 @@ def runV1 (op : String) : Option (P String) :=
     pure (v1EncDiff r.1 ++ " " ++ encOutcome encNode r.2)
   | "v1echodiff" => some do
     let d ← pV1Diff
-    pure (v1EncDiff d)
+    pure (v1EncPDiff d)
+  | "v1json" => some do
+    let nc ← pNumDict; let n ← pNode
+    pure (encOptText (V1.jsonM nc n))
+  | "v1render" => some do
+    let nc ← pNumDict; let d ← pV1Diff
+    pure (v1EncRender (V1.renderM nc false d))
+  | "v1renderc" => some do
+    let nc ← pNumDict; let d ← pV1Diff
+    pure (v1EncRender (V1.renderM nc true d))
+  | "v1readdiff" => some do
+    let nc ← pNumDict; let t ← pText
+    pure (encOutcome v1EncDiff (V1.readDiffM nc t))
+  | "v1renderpatch" => some do
+    let nc ← pNumDict; let d ← pV1Diff
+    pure (v1EncRender (V1.renderPatchM nc d))
+  | "v1readpatch" => some do
+    let nc ← pNumDict; let t ← pText
+    pure (encOutcome v1EncPDiff (V1.readPatchM nc t))
+  | "v1rendermerge" => some do
+    let nc ← pNumDict; let d ← pV1Diff
+    pure (v1EncRender (V1.renderMergeM nc d))
+  | "v1readmerge" => some do
+    let nc ← pNumDict; let t ← pText
+    pure (match V1.readMergeM nc t with
+      | .ok d => "ok <" ++ String.join ((v1SortStrings (d.map v1EncHunk)).map (fun h => " " ++ h)) ++ " >"
+      | .err => "err"
+      | .panic => "panic")
+  | "c17t" => some do
+    let m ← pV1Metas; let a ← pNode; let b ← pNode
+    let out ← pOutcomeNode
+    let eq ← next
+    pure (oracleC17T m a b out (eq == "T"))
+  | "c18p" => some do
+    let nc ← pNumDict; let a ← pNode; let b ← pNode
+    let txt ← pOutcomeText
+    let rb ← pOutcomeNode
+    pure (oracleC18P nc a b txt rb)
+  | "c18m" => some do
+    let nc ← pNumDict; let m ← pV1Metas; let a ← pNode; let b ← pNode
+    let txt ← pOutcomeText
+    let rb ← pOutcomeNode
+    pure (oracleC18M nc m a b txt rb)
   | "c17" => some do
     let m ← pV1Metas; let a ← pNode; let b ← pNode
     let eq ← next
